@@ -37,6 +37,8 @@ class Walker:
         position: statements are labelled *after* their sub-expressions)."""
         self.classify = classify
         self.in_try = 0
+        self.depth = 0
+        self.inlining = []
 
     # ------------------------------------------------------------ expressions
     def ex(self, n) -> set:
@@ -96,6 +98,20 @@ class Walker:
 
     def _label(self, n, seqs):
         lab = self.classify(n)
+        if isinstance(lab, tuple) and lab and lab[0] == "INLINE":
+            # splice the callee's normal-exit event sequences (bounded depth)
+            fd = lab[1]
+            if self.depth >= 3 or fd in self.inlining:
+                return seqs
+            self.depth += 1
+            self.inlining.append(fd)
+            try:
+                sub = {e for (e, x) in self.block(fd.body)
+                       if x in ("return", "fall", "break", "continue")}
+            finally:
+                self.depth -= 1
+                self.inlining.pop()
+            return _cat(seqs, sub or {()})
         if lab is None:
             if self.in_try and isinstance(n, (ast.Call, ast.Subscript, ast.Raise)):
                 lab = RAISEPOINT   # something that may raise inside a try body
